@@ -3,6 +3,7 @@
 cd /verif
 ids=${@:-$(ls seeded)}
 for d in $ids; do
+  [ -f seeded/$d/meta.json ] || continue
   for pid in $(python3 -c "import json;m=json.load(open('seeded/$d/meta.json'));print(' '.join(m.get('checks') or [m['property']]))"); do
     rc=$(tools/try_seeded.sh $d $pid 2>&1 | tail -1)
     echo "$d vs $pid: $rc"
